@@ -345,6 +345,14 @@ def reshape(x, shape, merge_chunks=True, limit=None):
 
     name = "reshape-" + tokenize(x, shape)
 
+    if x.size == 0 and x.npartitions > 1:
+        # An empty array holds no data, whatever its chunks are: the chunk
+        # merging/splitting logic below does not apply (and breaks on
+        # zero-length dimensions), the result is simply an empty array.
+        from dask.array.wrap import empty
+
+        return empty(shape, chunks=tuple((d,) for d in shape), dtype=x.dtype)
+
     if x.npartitions == 1:
         key = next(flatten(x.__dask_keys__()))
         new_key = (name,) + (0,) * len(shape)
